@@ -1346,6 +1346,7 @@ func parseGraphScenario(line string) (*gScen, error) {
 			}
 		}
 	}
+	sc.unqualify()
 	return sc, nil
 }
 
@@ -1469,8 +1470,6 @@ func emitGraph(sc *gScen, tags []string, w *hx.Writer) *gRun {
 	scn := r.scenarioLine()
 	if sc.reentrant() {
 		scn = "#reentrant " + scn // callbacks that re-enter the factory are outside the machine model: oracle-only
-	} else if sc.progQualified() {
-		scn = "#progq " + scn
 	}
 	w.Put(hx.Case{Scn: scn, Obs: r.observation(), Oracle: joinFails(r.oracles()), Tags: append(tags, r.labels()...)})
 	return r
@@ -1513,6 +1512,23 @@ func (r *gRun) leftFromFailedAttempt(k, row string) bool {
 	f, ok2 := r.firstAtt[t]
 	s, ok3 := r.succAtt[t]
 	return ok1 && ok2 && ok3 && f <= c && c < s
+}
+
+// unqualify: the scenario line carries the EFFECTIVE tags (what a point asks for once the T25 processor has qualified it in
+// code); a replay gives the scanner the tag as written and lets the processor add the qualifier again
+func (sc *gScen) unqualify() {
+	if !sc.hasType(25) {
+		return
+	}
+	for i := range sc.nodes {
+		if q := sc.nodes[i].progQ; q != "" {
+			for k, t := range sc.nodes[i].slots {
+				if t[0] == 'w' && strings.HasSuffix(t, ",qualifier="+q) {
+					sc.nodes[i].slots[k] = strings.TrimSuffix(t, ",qualifier="+q)
+				}
+			}
+		}
+	}
 }
 
 func (sc *gScen) hasType(ty int) bool {
